@@ -29,6 +29,7 @@ import (
 	"sync/atomic"
 	"testing"
 	"unsafe"
+	"weak"
 	"time"
 )
 
@@ -4656,6 +4657,83 @@ func (r *vpRun) derivedContext(rng *rand.Rand) {
 	r.stats["derived_context"]++
 }
 
+// releasedMemory (C14): a scope that was closed on its own is no longer referenced by anything the container keeps
+// alive - its parent, the provider, the contexts it was given. Measured with weak pointers (a scope and its context
+// reference each other, so finalizers would never run): after Close the harness drops its own references and forces
+// garbage collections; the closed scopes must be collected although the owner (a long-lived parent scope, or the
+// provider) and the long-lived context stay alive.
+func (r *vpRun) releasedMemory(rng *rand.Rand) {
+	w := r.newWorld(rng)
+	defer r.emit("p verdict", "ok")
+	c := NewCollection()
+	if e := c.AddScoped(func() *vfSvc { return &vfSvc{} }); e != nil {
+		w.fail("C17", "released-memory scenario: a valid registration was rejected: %v", e)
+		return
+	}
+	var p Provider
+	var err error
+	if guard(w, "Build", func() { p, err = c.Build() }) || err != nil {
+		w.fail("C08", "released-memory scenario: Build failed: %v", err)
+		return
+	}
+	defer p.Close()
+	var owner interface {
+		CreateScope(context.Context) (Scope, error)
+	} = p
+	what := "the provider"
+	if rng.Intn(2) == 0 {
+		parent, e := p.CreateScope(nil)
+		if e != nil {
+			return
+		}
+		defer parent.Close()
+		owner, what = parent, "its (open) parent scope"
+	}
+	longLived, cancel := context.WithCancel(context.Background())
+	defer cancel()
+	useCtx := rng.Intn(2) == 0
+	const N = 40
+	var weaks []weak.Pointer[scope]
+	armed := 0
+	for i := 0; i < N; i++ {
+		var ctx context.Context
+		if useCtx {
+			ctx = longLived
+		}
+		sc, e := owner.CreateScope(ctx)
+		if e != nil || sc == nil {
+			continue
+		}
+		Resolve[*vfSvc](sc)
+		if si, ok := sc.(*scope); ok {
+			weaks = append(weaks, weak.Make(si))
+			armed++
+		}
+		sc.Close()
+	}
+	if armed < N/2 {
+		return // the scope handle is not a plain pointer any more: nothing to measure this way
+	}
+	released := func() int {
+		n := 0
+		for _, p := range weaks {
+			if p.Value() == nil {
+				n++
+			}
+		}
+		return n
+	}
+	deadline := time.Now().Add(3 * time.Second)
+	for released() < armed && time.Now().Before(deadline) {
+		runtime.GC()
+		time.Sleep(5 * time.Millisecond)
+	}
+	if got := released(); got < armed*9/10 {
+		w.fail("C14", "released-memory scenario: %d scopes were created under %s and closed one by one; after garbage collection only %d of them were released - the others are still referenced although they are closed (context given: %v)", armed, what, got, useCtx)
+	}
+	r.stats["released_memory"]++
+}
+
 func (r *vpRun) watched(name string, f func()) (hung bool) {
 	done := make(chan struct{})
 	go func() {
@@ -4716,6 +4794,8 @@ func TestVerifCore(t *testing.T) {
 		os.WriteFile(filepath.Join(out, "cur.txt"), []byte(strconv.Itoa(it)), 0o644)
 		rng := rand.New(rand.NewSource(seed*1000003 + int64(it)))
 		o := vpGenOpts{n: 2 + rng.Intn(7), forms: it%2 == 1, faults: it%3 == 2, defects: it%5 == 4, rebuild: it%7 == 3}
+		// the newer hand-written scenarios run IN ADDITION to the generated scenario of their iteration (own random source)
+		rngX := rand.New(rand.NewSource(seed*7919 + int64(it)))
 		if it%50 == 7 {
 			if r.watched("reservedTypes", func() { r.reservedTypes(rng) }) {
 				break
@@ -4788,47 +4868,45 @@ func TestVerifCore(t *testing.T) {
 			}
 			continue
 		}
-		if it%50 == 25 {
-			if r.watched("derivedContext", func() { r.derivedContext(rng) }) {
+		if it%50 == 2 {
+			if r.watched("releasedMemory", func() { r.releasedMemory(rngX) }) {
 				break
 			}
-			continue
+		}
+		if it%50 == 25 {
+			if r.watched("derivedContext", func() { r.derivedContext(rngX) }) {
+				break
+			}
 		}
 		if it%50 == 15 || it%50 == 45 {
-			if r.watched("failedBuildScopes", func() { r.failedBuildScopes(rng) }) {
+			if r.watched("failedBuildScopes", func() { r.failedBuildScopes(rngX) }) {
 				break
 			}
-			continue
 		}
 		if it%50 == 5 || it%50 == 35 {
-			if r.watched("failedSibling", func() { r.failedSibling(rng) }) {
+			if r.watched("failedSibling", func() { r.failedSibling(rngX) }) {
 				break
 			}
-			continue
 		}
 		if it%50 == 1 {
-			if r.watched("valueDisposables", func() { r.valueDisposables(rng) }) {
+			if r.watched("valueDisposables", func() { r.valueDisposables(rngX) }) {
 				break
 			}
-			continue
 		}
 		if it%50 == 49 {
-			if r.watched("rootHandle", func() { r.rootHandle(rng) }) {
+			if r.watched("rootHandle", func() { r.rootHandle(rngX) }) {
 				break
 			}
-			continue
 		}
 		if it%50 == 39 {
-			if r.watched("pointerParamObject", func() { r.pointerParamObject(rng) }) {
+			if r.watched("pointerParamObject", func() { r.pointerParamObject(rngX) }) {
 				break
 			}
-			continue
 		}
 		if it%50 == 33 || it%50 == 11 || it%50 == 21 {
-			if r.watched("buildOverlap", func() { r.buildOverlap(rng) }) {
+			if r.watched("buildOverlap", func() { r.buildOverlap(rngX) }) {
 				break
 			}
-			continue
 		}
 		r.scenario(rng, o)
 		if r.w != nil && r.w.hung {
